@@ -15,6 +15,7 @@ import (
 	"strings"
 	"sync"
 	"sync/atomic"
+	"time"
 
 	"github.com/getlantern/bytemap"
 	"github.com/getlantern/zenodb/core"
@@ -207,4 +208,20 @@ func (db *DB) VerifReady(table string) bool {
 	ready := t.rowStore.memStore != nil
 	t.rowStore.mx.RUnlock()
 	return ready
+}
+
+// VerifAdvanceClock advances the database clock to t (virtual time only moves
+// forward; with a real clock this is a no-op). Nodes of a cluster share the wall
+// clock in production; under virtual time the harness keeps them in step with this.
+func (db *DB) VerifAdvanceClock(t time.Time) {
+	db.clock.Advance(t)
+}
+
+// VerifPartitionBy returns the partition keys of the named table as the table holds them.
+func (db *DB) VerifPartitionBy(table string) []string {
+	t := db.getTable(table)
+	if t == nil {
+		return nil
+	}
+	return append([]string(nil), t.PartitionBy...)
 }
